@@ -243,6 +243,8 @@ def gen_step(rnd, frnd, big=False):
           "path": rnd.choice((PATH, PATH, "/sim/other.txt"))}
     if api == "SP" and rnd.random() < 0.35:
         st["twin"] = {"mut": rnd.choice(("sites", "palette"))}
+    if api == "parser" and rnd.random() < 0.3:
+        st["silent"] = True
     return st
 
 
@@ -499,7 +501,10 @@ def do_step(k, plan, fs, ctx, rnd, sfp):
         val = None
         try:
             if api == "parser":
-                val = sfp.SequenceFileParser().parseSeqFile(path)
+                if plan.get("silent"):
+                    val = sfp.SequenceFileParser().parseSeqFile(path, silent=True)
+                else:
+                    val = sfp.SequenceFileParser().parseSeqFile(path)
             elif api == "SP":
                 val = SequenceParameters(sequenceFile=path)
             else:
